@@ -34,6 +34,22 @@ func typedWeakenings(v cty.Value, k int, full bool) []Weakened {
 }
 
 func runC12(c *Ctx) {
+	// history clauses first, so that each worker process meets them in its initial state
+	histFamily(c, "chains of type-computing calls on retained values", c06HistoryOps)
+	stdHistories(c, nil, func(fn *stdFn, args []cty.Value, o stdOutcome) string {
+		if !o.OK() {
+			return ""
+		}
+		for _, a := range args {
+			if !a.IsWhollyKnown() {
+				return ""
+			}
+		}
+		if !o.V.IsWhollyKnown() {
+			return "every argument is wholly known but the result is not"
+		}
+		return ""
+	})
 	weakenAlts = 3
 	cap := 3000
 	if c.Thorough {
